@@ -243,6 +243,17 @@ def main(mod, argv):
         print('replay: no violation')
         return 0
     plan = mod.plan(tier, seed)
+    try:
+        with open(os.path.join(VERIF, 'ypv', 'floors.json')) as f:
+            cal = json.load(f).get(pid, {}).get(tier)
+        if cal:
+            # calibrated floors (tools/calibrate_floors.py: 35% of what a run on the unchanged tree measured);
+            # exact requirements (coverage of every label / flag set / exhaustive slice) stay as written in the check
+            for k in list(plan.get('floor', {})):
+                if k in cal and not k.startswith('case:') and k != 'flag_sets_seen' and not k.startswith('exhaustive'):
+                    plan['floor'][k] = cal[k]
+    except FileNotFoundError:
+        pass
     corpus_items = mod.corpus() if hasattr(mod, 'corpus') else []
     total, shard_fail, nshards = run_sharded(mod, tier, seed, plan, corpus_items)
     wall = time.time() - t0
